@@ -141,6 +141,9 @@ impl<'a> Gen<'a> {
             Kind::Ent | Kind::Any => {
                 if k == Kind::Any && self.r.chance(1, 3) {
                     format!("{}", crate::ds::numv(self.r.below(self.n_num.max(1))))
+                } else if k == Kind::Any && self.r.chance(1, 3) {
+                    // a word that the data may hold as an object
+                    crate::ds::word(self.r.below(3))
                 } else {
                     ent(self.r.below(self.n_ent + 1)) // +1: sometimes an entity that is not in the data
                 }
